@@ -25,10 +25,12 @@ pub fn def() -> CheckDef {
                (otherwise the case does not count). Non-trivial: a shortcut was taken, not by the re-spelling, and the oracle's answer is \
                non-trivial; distinct by (network, formula, sets).",
         assumptions: &["explicit oracle as in C01/C02", "re-spelling preserves meaning by idempotence of & and neutrality of False for |"],
-        cases: |t| if t == Tier::Quick { 5000 } else { 200_000 },
+        cases: |t| (if t == Tier::Quick { 5000 } else { 200_000 }) + super::big::count(t),
         needs: |t| {
             let m = if t == Tier::Quick { 1 } else { 40 };
+            let big_min = super::big::count(t) / 2;
             vec![
+                ("big_model_cases_completed", big_min),
                 ("distinct_nontrivial", 300 * m),
                 ("pos_attractor_top", 30 * m),
                 ("pos_attractor_under_operator", 30 * m),
@@ -194,7 +196,12 @@ fn templated(rng: &mut Rng, fopts: &FormOpts, props: &[String]) -> F {
     f
 }
 
-fn run(rng: &mut Rng, _idx: u64, tier: Tier) -> CaseOut {
+fn run(rng: &mut Rng, idx: u64, tier: Tier) -> CaseOut {
+    let small: u64 = if tier == Tier::Quick { 5000 } else { 200_000 };
+    if idx >= small {
+        // bundled benchmark-size models (child process, see bigrun.rs / big.rs)
+        return super::big::run("C12", idx - small, rng, tier);
+    }
     let mut nopts = NetOpts::default();
     nopts.kind_weights = [4, 4, 3, 1];
     if tier == Tier::Thorough {
